@@ -1004,3 +1004,76 @@ def logdensity_batch_terms(ctx, rule="ROLE-logdensity-batch"):
             ctx.bad(rule, construct, p_[:120], p_, loc)
     else:
         ctx.ok(rule, construct, "density vmapped with the in-axes tree rebuilt from this site's batch axes")
+
+
+def nested_jaxpr_seeded_events(ctx, rule="OWN-nested-key-stream"):
+    """In the cond and scan arms of Seed.eval_jaxpr_seed the equation's sub-jaxprs (params['branches'], params['jaxpr']) may only be
+    turned into functions with jaxpr_as_fun and run through a *fresh* seed(...) on a sub-key: interpreting them with the current
+    interpreter (self.eval_jaxpr_seed / self.eval), with jax's plain evaluator, or calling the un-seeded function makes the draws depend
+    on the outer key stream (and, behind a concreteness test, makes eager and traced runs differ)."""
+    ev = mk_ev(ctx)
+    dotted = PJ + "Seed.eval_jaxpr_seed"
+    s = summarize(ctx, ev, dotted)
+    loc = func_loc(ctx, dotted)
+    by = events_by_kind(s)
+    ALLOWED = {PJ + "seed", "jax.extend.core.jaxpr_as_fun", "jax.core.jaxpr_as_fun", "jax.lax.switch", "jax.lax.cond", "jax.lax.scan",
+               "builtins.tuple", "builtins.list", "builtins.len", "builtins.enumerate", "builtins.zip", "builtins.range", "builtins.reversed",
+               "jax._src.util.split_list", "jax.tree_util.tree_leaves", "jax._src.util.safe_map"}
+    for kind, key in (("cond", "branches"), ("scan", "jaxpr")):
+        evs = [e for k, v in by.items() if kind in k for e in v]
+        construct = f"pjax.Seed.eval_jaxpr_seed[{kind}]"
+        ctx.need(bool(evs), f"{construct}: arm not found (anchor vanished)")
+
+        def is_sub(t):
+            return t[0] == "idx" and is_const(t[2], key)
+        bad = []
+        seen_seed = False
+        for e in evs:
+            if e[1] != "call":
+                continue
+            t = e[2]
+            if not any(is_sub(x) for x in subterms(t)):
+                continue
+            fn = t[1]
+            # seed(f)(key, …): calling the seeded function is the intended consumer
+            if is_call(fn, name=PJ + "seed"):
+                seen_seed = True
+                continue
+            if fn[0] == "closure":
+                continue
+            if fn[0] == "name" and fn[1] in ALLOWED:
+                if fn[1] == PJ + "seed":
+                    seen_seed = True
+                continue
+            bad.append((t, e[3]))
+        # un-seeded use of jaxpr_as_fun(...): as the callee of a call, or as an operand of anything but seed(...)
+        for e in evs:
+            if e[1] != "call":
+                continue
+            for x in subterms(e[2]):
+                if not is_call(x):
+                    continue
+                asfun = lambda y: is_call(y) and y[1][0] == "name" and y[1][1].endswith("jaxpr_as_fun")
+                if asfun(x[1]) or (any(asfun(a) for a in direct_args(x)) and not is_call(x, name=PJ + "seed")
+                                   and not (x[1][0] == "name" and x[1][1] in ("builtins.tuple", "builtins.list"))):
+                    bad.append((x, e[3]))
+        pool = [e[2] for e in evs if e[1] == "call"] + [rec.get("body") or NONE for rec in ev.scans.values()]
+        for t in pool:
+            for x in subterms(t):
+                if is_call(x, name=PJ + "seed") and any(is_sub(y) for y in subterms(x)):
+                    seen_seed = True
+                # the seeded function's own un-seeded twin inside a scan body / comprehension
+                if is_call(x) and is_call(x[1]) and x[1][1][0] == "name" and x[1][1][1].endswith("jaxpr_as_fun") and any(is_sub(y) for y in subterms(x)):
+                    bad.append((x, 0))
+        if bad:
+            t, ln = bad[0]
+            ctx.bad(rule, construct, "sub-jaxprs run only through a fresh seed(...)", f"the equation's sub-jaxpr reaches {short(t, ev, 160)}: it is interpreted "
+                    "outside a fresh seed(...) (outer key stream / unseeded), so its draws are not a function of the sub-key split off for this equation", f"{s.module.path}:{ln}")
+        elif not seen_seed:
+            ctx.bad(rule, construct, "sub-jaxprs run only through a fresh seed(...)", "no seed(...) of the equation's sub-jaxprs found in this arm", loc)
+        else:
+            ctx.ok(rule, construct, f"params[{key!r}] reaches only jaxpr_as_fun → seed(...)")
+    # stated as an observation only: a tracer/concreteness test in the interpreter means eager and traced runs take different paths
+    tr = sorted({short(c, ev, 80) for e in s.events for c, v in e[0] if isinstance(c, tuple) and any(x[0] == "name" and x[1].split(".")[-1] in ("Tracer", "is_concrete") for x in subterms(c))})
+    if tr:
+        ctx.observe(rule, "pjax.Seed.eval_jaxpr_seed", f"dispatch depends on tracer-ness: {tr}")
